@@ -722,7 +722,7 @@ class Tr:
             x = self.expr(v)
             if x.typ != "AT":
                 self.err(s, "disp_map.attrs = <attrs of the cost volume> expected")
-            self.sto[("dm", "attrs")] = x.sto
+            self.sto[("dm", "attrs")] = self.new_sto()      # xarray's setter stores dict(value): a new dict
             dm = self.dmn()
             return f"let {dm} := dm_set_attrs {dm} {x.text} in"
         self.err(s, f"store not understood: {ast.unparse(s).splitlines()[0]}")
